@@ -62,6 +62,11 @@ class Spec:
             return out.str_size
         return self.capacity(out)
 
+    def may_be_unallocated(self, out):
+        T = self.nmfu.OutputStorageType
+        return (out.type == T.STR and self.flags["ALLOCATE_STR_SPACE_DYNAMIC"] and self.flags["ALLOCATE_STR_SPACE_DYNAMIC_ON_DEMAND"]
+                and (out.default_value is None or self.flags["DELETE_STRING_FREE_MEMORY"]))
+
     def expected_ctypes(self, out):
         T = self.nmfu.OutputStorageType
         if out.type == T.BOOL:
@@ -101,7 +106,11 @@ class Spec:
             arr = st[("buf", e.ref.name)]
             if self.flags["UNSAFE_STRING_INDEXING"]:
                 return z3.Select(arr, i)
-            return z3.If(z3.And(i >= 0, i < self.index_bound(e.ref)), z3.Select(arr, i), z3.IntVal(0))
+            inb = z3.And(i >= 0, i < self.index_bound(e.ref))
+            if self.may_be_unallocated(e.ref) and ("tag", e.ref.name) in st:
+                # an unallocated on-demand string is empty: every index is out of range
+                inb = z3.And(inb, st[("tag", e.ref.name)] == 1)
+            return z3.If(inb, z3.Select(arr, i), z3.IntVal(0))
         if isinstance(e, n.LastCharIntegerExpr):
             return inval
         if isinstance(e, n.SumIntegerExpr):
@@ -179,7 +188,8 @@ class Spec:
                 arr = z3.Store(arr, len(codes), z3.IntVal(0))
             st[("buf", o.name)] = arr
             st[("m", o.name + "_counter")] = z3.IntVal(len(codes))
-            st[("alloc", o.name)] = True
+            if ("tag", o.name) in st:
+                st[("tag", o.name)] = z3.IntVal(1)
             return self.run_actions(rest, st, trace, inval, ctx, conds, out, k, kepi)
         if isinstance(a, n.DeleteBuf):
             o = a.into_storage
@@ -188,7 +198,12 @@ class Spec:
             frees = (self.flags["ALLOCATE_STR_SPACE_DYNAMIC_ON_DEMAND"] and self.flags["DELETE_STRING_FREE_MEMORY"] and ctx != "start"
                      and o.type == T.STR and self.flags["ALLOCATE_STR_SPACE_DYNAMIC"])
             if not frees and o.type == T.STR and o.str_null:
-                st[("buf", o.name)] = z3.Store(st[("buf", o.name)], 0, z3.IntVal(0))
+                z = z3.Store(st[("buf", o.name)], 0, z3.IntVal(0))
+                if self.may_be_unallocated(o) and ("tag", o.name) in st:
+                    z = z3.If(st[("tag", o.name)] == 1, z, st[("buf", o.name)])
+                st[("buf", o.name)] = z
+            if frees and ("tag", o.name) in st:
+                st[("tag", o.name)] = z3.IntVal(0)
             st[("m", o.name + "_counter")] = z3.IntVal(0)
             return self.run_actions(rest, st, trace, inval, ctx, conds, out, k, kepi)
         if isinstance(a, (n.AppendTo, n.AppendCharTo)):
@@ -220,6 +235,8 @@ class Spec:
                 arr = z3.Store(arr, ln + 1, z3.IntVal(0))
             st_n[("buf", o.name)] = arr
             st_n[("m", o.name + "_counter")] = ln + 1
+            if ("tag", o.name) in st_n:
+                st_n[("tag", o.name)] = z3.IntVal(1)
             return self.run_actions(rest, st_n, trace, inval, ctx, conds + [z3.Not(full)], out, k, kepi)
         if isinstance(a, n.CallHook):
             arg = z3.IntVal(0) if ctx == "start" else inval
